@@ -24,7 +24,11 @@ AST (JSON lists; names are small naturals chosen by the program):
   ["futadd", a, ix, src, mod|None]         arr_a.get_future_index(ix).add(src, mod)
   ["regadd", r, src, mod|None]             rf_r.add(src, mod)
   ["if", c, cb, x, y|None, body]           c in eq ne lt ge ez nz; cb: conn.if_c(x, y, body) else `with x.if_c(y):`
-  ["loop", cb, v, start, stop, step, body] cb: conn.loop_body(body,..) (v is a RegFuture) else `with conn.loop(..) as v`
+  ["loop", cb, v, start, stop, step, body, k|None]
+                                           cb: conn.loop_body(body,..) (v is a RegFuture) else `with conn.loop(..) as v`;
+                                           step may be negative; k: loop_register=R_k given by the program
+  ["newreg", r, init]                      rf_r = conn.builder.new_register(init)   (claimed for the rest of the connection)
+  ["uadd", r, src, mod|None]               rf_r.add(src, mod) on such a register
   ["foreach", enum, v, a, body]            with arr_a.foreach() as f / arr_a.enumerate() as (v, f); f is ["fut", a, ["v", v]]
   ["until", v, maxit, body, cx, bound, cleanup]
                                            with conn.loop_until(maxit) as loop: body;
@@ -185,16 +189,26 @@ class Interp:
                 ctx = getattr(xv, "if_" + c)() if c in ("ez", "nz") else getattr(xv, "if_" + c)(yv)
                 with ctx:
                     self.block(body)
+        elif k == "newreg":
+            self.reg[s[1]] = conn.builder.new_register(s[2])
+        elif k == "uadd":
+            self.reg[s[1]].add(self.src(s[2]), mod=s[3])
         elif k == "loop":
-            _, cb, v, start, stop, step, body = s
+            _, cb, v, start, stop, step, body = s[:7]
+            lreg = s[7] if len(s) > 7 else None
             if cb:
                 def fn(_c, rf):
                     self.loopv[v] = ("rf", rf)
                     self.block(body)
                     del self.loopv[v]
-                conn.loop_body(fn, stop=stop, start=start, step=step)
+                conn.loop_body(fn, stop=stop, start=start, step=step,
+                               loop_register=None if lreg is None else f"R{lreg}")
             else:
-                with conn.loop(stop, start=start, step=step) as i:
+                from netqasm.lang.encoding import RegisterName
+                from netqasm.lang.operand import Register
+
+                with conn.loop(stop, start=start, step=step,
+                               loop_register=None if lreg is None else Register(RegisterName.R, lreg)) as i:
                     self.loopv[v] = ("reg", i)
                     self.block(body)
                     del self.loopv[v]
@@ -277,7 +291,12 @@ class Interp:
         proto = b.subrt_pop_pending_subroutine()
         if proto is not None:
             if assemble:
-                b.subrt_compile_subroutine(proto)
+                try:
+                    b.subrt_compile_subroutine(proto)
+                except RuntimeError:
+                    # raised by the assembler (scratch registers for immediates: depends on the
+                    # registers named in this one block, C03), not by the builder's register pool
+                    self.asm_failures = getattr(self, "asm_failures", 0) + 1
             b._reset()
 
     def flush(self):
@@ -303,15 +322,16 @@ class Interp:
         if self.pipe is not None:
             snap["ctrl_arrays"] = {a: _plain(v) for a, v in self.pipe.arrays().items()}
             snap["ctrl_M"] = ctrl_m_registers(self.pipe)
+            snap["ctrl_R"] = ctrl_m_registers(self.pipe, bank="R")
             snap["reg_names"] = {r: str(rf.reg) for r, rf in self.reg.items()}
         return snap
 
 
-def ctrl_m_registers(pipe, app_id=0):
-    """values of M0..M15 on the controller (None = never written)"""
+def ctrl_m_registers(pipe, app_id=0, bank="M"):
+    """values of M0..M15 (or R0..R15) on the controller (None = never written)"""
     from netqasm.lang.encoding import RegisterName
 
-    grp = pipe.executor._registers[app_id][RegisterName.M]
+    grp = pipe.executor._registers[app_id][getattr(RegisterName, bank)]
     return [None if grp._register.get(i) is None else int(grp._register.get(i)) for i in range(16)]
 
 
@@ -462,6 +482,11 @@ class Gen:
         self.vars = []          # stack of dict(v, kind: 'reg'|'rf'|'elem'|'both', lo, hi, arr)
         self.kinds = {}
         self.in_epr = 0
+        self.held = []          # R registers held by the enclosing operations and by new_register
+        self.uregs = []         # new_register futures (readable in every later block)
+        self.uregs_block = []   # ... created in the current flush block (may be added to)
+        self.explicit_p = 0.2   # probability of loop_register=R_k
+        self.explicit_span = 4  # ... chosen among the first so many free registers
         self.meas_count = 0     # upper bound on dynamic number of measurements (script length)
         self.mult = 1           # product of enclosing iteration counts
 
@@ -510,8 +535,8 @@ class Gen:
             f = self.pick_future()
             if f:
                 return ["fut", f[0], f[1]]
-        if r < 0.7 and self.regs:
-            return ["reg", self.rng.choice(self.regs)]
+        if r < 0.7 and (self.regs or self.uregs):
+            return ["reg", self.rng.choice(self.regs + self.uregs)]
         if r < 0.85 and rfs and allow_loopreg:
             return ["loop", self.rng.choice(rfs)["v"]]
         if allow_int:
@@ -591,12 +616,27 @@ class Gen:
             self.arrays[a]["defined"].add(0)
         return ["measnew", q, int(inplace), a]
 
+    def first_free(self):
+        k = 0
+        while k in self.held:
+            k += 1
+        return k
+
     def at_block_level(self, depth):
         """True when a definition made here certainly reaches every later use we generate
         (later uses are generated either at this level or deeper inside it)."""
         return self.cond_depth == 0
 
     def gen_stmt(self, depth, level_qubits):
+        snap = (list(self.held), list(self.uregs), list(self.uregs_block), list(self.regs), list(self.live),
+                self.nreg_block)
+        s = self.gen_stmt_(depth, level_qubits)
+        if s is None:
+            # the statement was dropped: forget every handle it introduced
+            self.held, self.uregs, self.uregs_block, self.regs, self.live, self.nreg_block = snap
+        return s
+
+    def gen_stmt_(self, depth, level_qubits):
         rng = self.rng
         live = self.usable_qubits()
         choices = []
@@ -616,6 +656,10 @@ class Gen:
             choices += ["futadd"] * 2
         if self.want("regadd") and self.regs:
             choices += ["regadd"]
+        if self.want("newreg") and self.cond_depth == 0 and len(self.uregs) < 3 and self.in_epr == 0:
+            choices += ["newreg"]
+        if self.want("newreg") and self.uregs_block:
+            choices += ["uadd"]
         if depth < self.max_depth:
             if self.want("if"):
                 choices += ["if"] * 3
@@ -689,20 +733,45 @@ class Gen:
             body = self.gen_block(depth + 1, rng.randint(1, 3))
             self.cond_depth -= 1
             return ["if", c, int(cb), x, y, body]
+        if k == "newreg":
+            r_ = self.nreg
+            self.nreg += 1
+            self.uregs.append(r_)
+            self.uregs_block.append(r_)
+            self.held.append(self.first_free())
+            return ["newreg", r_, self.small()]
+        if k == "uadd":
+            return ["uadd", rng.choice(self.uregs_block), self.pick_src(), rng.choice([None, None, 3])]
         if k == "loop":
             cb = rng.random() < 0.5
-            step = rng.choice([1, 1, 1, 2, 3])
-            start = rng.choice([0, 0, 1, 2])
+            step = rng.choice([1, 1, 1, 2, 3, -1, -1, -2])
             cnt = rng.choice([0, 1, 2, 2, 3, 4])
             if self.mult * max(cnt, 1) > 40:
                 cnt = 1
-            stop = start + step * cnt
+            if step > 0:
+                start = rng.choice([0, 0, 1, 2])
+                stop = start + step * cnt
+                lo, hi = start, max(start, stop - step)
+            else:
+                stop = rng.choice([0, 0, 1, -1]) if cnt > 0 else rng.choice([0, 2])
+                start = stop - step * cnt
+                lo, hi = (stop - step, start) if cnt > 0 else (start, start)
+                if lo < 0:
+                    stop, start, lo, hi = stop + 1, start + 1, lo + 1, hi + 1
             v = self.nvar
             self.nvar += 1
-            self.vars.append(dict(v=v, kind="rf" if cb else "reg", lo=start, hi=max(start, stop - step), arr=None))
+            lreg = None
+            if rng.random() < self.explicit_p:
+                free = [k_ for k_ in range(8) if k_ not in self.held]
+                if free:
+                    lreg = rng.choice(free[:self.explicit_span])
+            reg = self.first_free() if lreg is None else lreg
+            self.held.append(reg)
+            self.vars.append(dict(v=v, kind="rf" if cb else "reg", lo=lo, hi=hi, arr=None))
             body = self.in_loop(depth, cnt, rng.randint(1, 3))
             self.vars.pop()
-            return ["loop", int(cb), v, start, stop, step, body]
+            self.held.remove(reg)
+            return ["loop", int(cb), v, start, stop, step, body, lreg]
         if k == "foreach":
             a = rng.choice(list(self.arrays))
             d = self.arrays[a]
@@ -713,7 +782,10 @@ class Gen:
             v = self.nvar
             self.nvar += 1
             self.vars.append(dict(v=v, kind="both" if enum else "elem", lo=0, hi=d["len"] - 1, arr=a))
+            reg = self.first_free()
+            self.held.append(reg)
             body = self.in_loop(depth, d["len"], rng.randint(1, 3))
+            self.held.remove(reg)
             self.vars.pop()
             return ["foreach", int(enum), v, a, body]
         if k == "epr":
@@ -721,7 +793,13 @@ class Gen:
             if kind.startswith("post") or kind.startswith("ctx"):
                 self.cond_depth += 1
                 self.in_epr += 1      # no Qubit() while the pair's FutureQubit is active (SDK limitation)
+                mine = []
+                for _ in range(3 if kind.startswith("post") else 1):
+                    mine.append(self.first_free())
+                    self.held.append(mine[-1])
                 body = self.in_loop(depth, 2, rng.randint(0, 2))
+                for x in mine:
+                    self.held.remove(x)
                 self.in_epr -= 1
                 self.cond_depth -= 1
             else:
@@ -738,13 +816,16 @@ class Gen:
             self.mult *= maxit
             # the body runs at least once, completely; the cleanup may not run at all
             self.until_operand = None
+            reg = self.first_free()
+            self.held.append(reg)
             body = self.gen_until_body(depth + 1)
             cx = self.until_operand
             if cx is None:
                 body = []
             self.cond_depth += 1
-            cleanup = self.gen_block(depth + 1, rng.randint(0, 2)) if rng.random() < 0.4 else []
+            cleanup = self.gen_block(depth + 1, rng.randint(0, 2)) if (rng.random() < 0.4 and body) else []
             self.cond_depth -= 1
+            self.held.remove(reg)
             self.mult = save
             self.vars.pop()
             if not body:
@@ -795,7 +876,10 @@ class Gen:
         x = self.pick_cval(allow_int=False)
         if x is None:
             return []
-        if not body:
+        emitting = ("newq", "gate", "rot", "cnot", "cphase", "measfut", "measnew", "measreg", "free", "futadd", "regadd")
+        if not any(s[0] in emitting for s in body):
+            # a loop_until whose body emits no command is dropped by the builder together with its
+            # cleanup (documented assumption `emits` of the composed theorem): always emit something
             f = self.pick_future()
             if f is None:
                 return []
@@ -818,6 +902,7 @@ class Gen:
             if rng.random() < self.flush_p:
                 prog.append(["flush"])
                 self.regs = []
+                self.uregs_block = []
                 self.nreg_block = 0
         for q in list(self.live):
             if rng.random() < 0.7:
@@ -834,6 +919,7 @@ def gen_sequence(rng, n_ops, flush_every, epr=True, max_depth=4):
     g.epr = epr
     g.allow_skipped_measreg = True     # only compilation matters here
     g.reset()
+    g.explicit_span = 2                # keep the registers named in one block few (assembler scratch, C03)
     g.cond_depth = 0
     g.pending_regs = []
     prog, top = [], []
@@ -845,10 +931,12 @@ def gen_sequence(rng, n_ops, flush_every, epr=True, max_depth=4):
         if flush_every and len(prog) % flush_every == 0:
             prog.append(["flush"])
             g.regs = []
+            g.uregs_block = []
             g.nreg_block = 0
         elif g.nreg_block >= 11:
             prog.append(["flush"])
             g.regs = []
+            g.uregs_block = []
             g.nreg_block = 0
     prog.append(["flush"])
     return renumber_arrays(prog)
@@ -910,12 +998,12 @@ def renumber_arrays(prog):
             return ["measfut", s[1], s[2], m[s[3]], s[4]]
         if k == "futadd":
             return ["futadd", m[s[1]], s[2], op(s[3]), s[4]]
-        if k == "regadd":
-            return ["regadd", s[1], op(s[2]), s[3]]
+        if k in ("regadd", "uadd"):
+            return [k, s[1], op(s[2]), s[3]]
         if k == "if":
             return ["if", s[1], s[2], op(s[3]), op(s[4]), [st(x) for x in s[5]]]
         if k == "loop":
-            return s[:6] + [[st(x) for x in s[6]]]
+            return s[:6] + [[st(x) for x in s[6]]] + s[7:]
         if k == "foreach":
             return ["foreach", s[1], s[2], m[s[3]], [st(x) for x in s[4]]]
         if k == "until":
@@ -931,8 +1019,12 @@ def reg_defs_uses(s, defs, uses):
     """register futures assigned / used as an in-subroutine operand anywhere inside s"""
     if s[0] == "measreg":
         defs.add(s[3])
+    if s[0] == "newreg":
+        defs.add(("new", s[1]))       # an R register: keeps its value across flushes, may be READ later
     if s[0] == "regadd":
         uses.add(s[1])
+    if s[0] == "uadd":
+        uses.add(("new", s[1]))       # ... but is returned to the host only by the block that claimed it
 
     def walk(x):
         if isinstance(x, list):
@@ -993,6 +1085,10 @@ def stmt_kinds(prog, acc=None, depth=0):
             k = "enumerate" if s[1] else "foreach"
         elif k == "futadd":
             k = "futadd_mod" if s[4] is not None else "futadd"
+        if s[0] == "loop" and len(s) > 7 and s[7] is not None:
+            acc["loop_explicit_register"] = acc.get("loop_explicit_register", 0) + 1
+        if s[0] == "loop" and s[5] < 0:
+            acc["loop_negative_step"] = acc.get("loop_negative_step", 0) + 1
         elif k == "newarr":
             init = s[3]
             k = "newarr_noinit" if init is None else (
@@ -1099,7 +1195,13 @@ def coq_stmt(s):
         return (f"SIf C{s[1].capitalize()} {coq_bool(s[2])} {coq_cval(s[3])} {coq_cval(s[4])} "
                 f"{coq_block(s[5])}")
     if k == "loop":
-        return f"SLoop {coq_bool(s[1])} {s[2]} {cz(s[3])} {cz(s[4])} {cz(s[5])} {coq_block(s[6])}"
+        lreg = s[7] if len(s) > 7 else None
+        return (f"SLoop {coq_bool(s[1])} {s[2]} {'None' if lreg is None else f'(Some {lreg}%nat)'} "
+                f"{cz(s[3])} {cz(s[4])} {cz(s[5])} {coq_block(s[6])}")
+    if k == "newreg":
+        return f"SNewReg {s[1]} {cz(s[2])}"
+    if k == "uadd":
+        return f"SUAdd {s[1]} {coq_src(s[2])} {coq_opt(s[3])}"
     if k == "foreach":
         return f"SForeach {coq_bool(s[1])} {s[2]} {s[3]} {coq_block(s[4])}"
     if k == "until":
